@@ -28,6 +28,24 @@ def symbols(rnd, community=b"public"):
     S["garbage:2"] = dict(kind="garbage", raw=bytes(rnd.randrange(256) for _ in range(60)), src="s4b")
     S["garbage:3"] = dict(kind="garbage", raw=b"\x30\x03\x02\x01\x01", src="s4")
     S["garbage:v3"] = dict(kind="garbage", raw=build_v3(1, 65507, 0, b"e", 1, 1, b"", b"", b"", build_scoped(b"e", b"", build_pdu(TRAP2, 1, 0, 0, []))), src="s4")
+    # an intact envelope (lengths fit, version 1, the registered community) around broken PDU content
+    oidb = enc_oid(D.UPTIME)
+    inner = {
+        "status_type": tlv(0x02, b"\x4d") + tlv(0x04, b"\x00") + tlv(0x02, b"\x00") + tlv(0x30, b""),
+        "triple": tlv(0x02, b"\x4d") + tlv(0x02, b"\x00") + tlv(0x02, b"\x00") + tlv(0x30, tlv(0x30, oidb + NULL + NULL)),
+        "overrun": tlv(0x02, b"\x4d") + tlv(0x02, b"\x00") + tlv(0x02, b"\x00") + b"\x30\x7f" + tlv(0x30, oidb + NULL),
+        "noise": bytes(rnd.randrange(256) for _ in range(40)),
+        "emptypdu": b"",
+        "vb_not_seq": tlv(0x02, b"\x4d") + tlv(0x02, b"\x00") + tlv(0x02, b"\x00") + tlv(0x30, oidb + NULL),
+        "no_bindings_field": tlv(0x02, b"\x4d") + tlv(0x02, b"\x00") + tlv(0x02, b"\x00"),
+    }
+    for k, body in inner.items():
+        S["badpdu:" + k] = dict(kind="garbage", raw=tlv(0x30, tlv(0x02, b"\x01") + tlv(0x04, community) + tlv(0xa7, body)), src="s4")
+    # indefinite-length octets (no end marker anywhere): in a member of the message, as the message itself, inside the PDU
+    S["indef:member"] = dict(kind="garbage", raw=b"\x30\x0b\x02\x01\x01\x04\x80" + community + b"\xa7\x01", src="s4")
+    S["indef:top"] = dict(kind="garbage", raw=b"\x30\x80\x02\x01\x01" + tlv(0x04, community) + tlv(0xa7, inner["no_bindings_field"]), src="s4")
+    S["indef:pdu"] = dict(kind="garbage", raw=tlv(0x30, tlv(0x02, b"\x01") + tlv(0x04, community) + b"\xa7\x80" + inner["vb_not_seq"]), src="s4")
+    S["indef:vbl"] = dict(kind="garbage", raw=tlv(0x30, tlv(0x02, b"\x01") + tlv(0x04, community) + tlv(0xa7, tlv(0x02, b"\x4d") + tlv(0x02, b"\x00") + tlv(0x02, b"\x00") + b"\x30\x80" + tlv(0x30, oidb + NULL))), src="s4")
     S["empty"] = dict(kind="garbage", raw=b"", src="s4")
     S["wrongpdu"] = dict(kind="unspecified", raw=build_community(1, community, build_pdu(RESPONSE, 5, 0, 0, P["p1"])), src="s4")
     S["v1framed"] = dict(kind="foreign", raw=D.notification(b"private", P["p1"], version=0), src="s4")
@@ -66,13 +84,13 @@ def run(ctx):
     for _ in range(100 if q else 2000):
         words.append([rnd.choice(keys) for _ in range(rnd.randint(3, 8))])
     T = [D.run_word([S[k] for k in w]) for w in words]
-    for w in ([["valid:p3:s4", "foreign:b'private'", "garbage:1", "valid:p0:s4"], ["truncated:10", "valid:pall:s4"]] + ([] if q else [[rnd.choice(keys) for _ in range(5)] for _ in range(25)])):
+    for w in ([["valid:p3:s4", "foreign:b'private'", "garbage:1", "valid:p0:s4"], ["truncated:10", "valid:pall:s4"]] + ([] if q else [[rnd.choice([k for k in keys if not k.startswith("indef")]) for _ in range(5)] for _ in range(25)])):
         T.append(D.run_word([S[k] for k in w], mode="loopback"))
     ctx.evaluations += len(T)
     verdicts = ctx.validate("Trace_Trap", T, chunk=2000)
     ctx.judge(T, verdicts, signature=sig, nontrivial=lambda tr, v: json.dumps(tr["scenario"]["word"]) if v[2] >= 1 else None)
     ctx.rule = ("words over {well-formed v2c notifications with 0..19 payload bindings of every value type from IPv4 and IPv6 senders, nine foreign communities (prefix, "
-                "case, non-ASCII variants), truncations, garbage, empty datagram, a v3 message, a Response PDU, v1-framed notifications}: every word of length <= %d over "
+                "case, non-ASCII variants), truncations, garbage, intact envelopes around broken PDU content (7 kinds), indefinite-length octets at 4 depths, empty datagram, a v3 message, a Response PDU, v1-framed notifications}: every word of length <= %d over "
                 "six representatives, every malformed datagram before / between / after valid ones, seeded longer words; fed through the real "
                 "SNMPTrapReceiverProtocol and the callback register_trap_callback installs, and through a real loopback socket; non-trivial = >= 1 expected delivery") % (3 if q else 4)
     ctx.assumptions = ["whether a datagram is a well-formed matching notification is decided by Ber.tla on the raw bytes",
